@@ -130,7 +130,8 @@ def main(tier):
         base = ["--no-config", "--color", "never", "-j1", "--sort", "path"]
         modes = [("count", ["-c", "--include-zero"]), ("countm", ["--count-matches", "--include-zero"]), ("only", ["-o", "-n", "--no-heading"]),
                  ("lwith", ["-l"]), ("lwithout", ["--files-without-match"]), ("quiet", ["-q"]), ("json", ["--json"]), ("stats", ["-c", "--stats"]),
-                 ("statsj", ["-c", "--stats"]), ("statsfwm", ["--files-without-match", "--stats"]), ("statsl", ["-l", "--stats"])]
+                 ("statsj", ["-c", "--stats"]), ("statsfwm", ["--files-without-match", "--stats"]), ("statsl", ["-l", "--stats"]),
+                 ("statsstd", ["--stats", "-n", "--no-heading"])]      # the totals kept by the standard printer
         jobs, meta = [], []
         for i, r in enumerate(recs):
             pa = rr.opt_flags(r["o"]) + ["-e", rr.render(r["u"])]
@@ -157,7 +158,8 @@ def main(tier):
         for (i, maxc, term_last, name), (rc, so, se), j in zip(meta, outs, jobs):
             r = recs[i]
             exp = per_file(r, lines, 0 if maxc == 10 else maxc, "crlines" if term_last == "crlf_content" else "lines")
-            if name == "statsj":
+            stats_of = {"statsj": "summary printer, 4 threads", "stats": "summary printer", "statsstd": "standard printer"}.get(name)
+            if name in ("statsj", "statsstd"):
                 name = "stats"
             exact = all(v["exact"] for v in exp.values())
             why = None
@@ -215,6 +217,25 @@ def main(tier):
                     why = {"json_matching_line_without_submatch": bad_empty}
                 elif exact and not r["o"]["inv"] and sub != wantm:
                     why = {"json_submatches": sub, "expected": wantm}
+                else:
+                    # the totals of the closing summary message are the sums over the files
+                    st = [m for m in msgs if m.get("type") == "summary"]
+                    st = st[-1]["data"]["stats"] if st else {}
+                    # ("searches" counts the files that have begin/end messages, i.e. those with output: it is compared with the
+                    # sum over the end messages below, not with the number of files named)
+                    got = {"matched lines": st.get("matched_lines"), "files contained matches": st.get("searches_with_match"),
+                           "files searched": NF, "matches": st.get("matches")}
+                    want = {"matched lines": sum(wantc.values()), "files contained matches": sum(1 for v in wantc.values() if v),
+                            "files searched": NF, "matches": sum(wantm.values()) if (exact and not r["o"]["inv"]) else got["matches"]}
+                    ends = [m["data"].get("stats", {}) for m in msgs if m.get("type") == "end"]
+                    keys = ("matched_lines", "matches", "searches", "searches_with_match", "bytes_searched", "bytes_printed")
+                    sums = {k: sum(e.get(k, 0) for e in ends) for k in keys}
+                    if got != want:
+                        why = {"stats": got, "expected": want}
+                    elif sums != {k: st.get(k) for k in keys}:
+                        why = {"json_summary": {k: st.get(k) for k in keys}, "sum_of_end_messages": sums}
+                    if why:
+                        stats_of = "JSON summary message"
             elif name in ("statsfwm", "statsl"):
                 # the totals of --stats do not depend on which summary mode prints the files
                 txt = so.decode("latin1")
@@ -240,6 +261,8 @@ def main(tier):
             if why:
                 sig = {"mode": name, "maxcount": maxc, "unterminated": term_last is False, "crlf_content": term_last == "crlf_content", "pattern": rr.render(r["u"]),
                        "opts": sorted(k for k, v in r["o"].items() if v), "nullable": bool(r.get("nullable"))}
+                if stats_of:
+                    sig["stats_of"] = stats_of
                 # mechanism: is the whole deficit explained by the empty match at the very end of each file's
                 # unterminated last line (which the printers drop)?
                 if term_last is False and isinstance(why, dict):
